@@ -7,6 +7,7 @@ pub mod c12;
 pub mod c13;
 pub mod c15;
 pub mod c17;
+pub mod c20;
 pub mod part;
 
 /// Restarting a logger that writes directly to timestamp-named files (TimestampsDirect,
